@@ -3,8 +3,8 @@
 # Mutations of cpc/include confirmed to print VIOLATION (scratch worktree, VERIF_REPO): see the list at the end of this comment
 # block (filled in after the mutation runs).
 PROP = "C05"
-READY = False
-COQ_PROPS = ['Properties_C05']
+READY = True
+COQ_PROPS = ['Properties_C05', 'Regression_cpc']
 TRANSLATORS = ['gen_cpctables']
 EXTRA_OBLIGATIONS = {'Properties_C05': 210}   # finite vm_compute checks on the translated tables (coq/CpcCodecTables.v)
 RULE = ('operation scripts over cpc_sketch / cpc_union registers, lg_k 4..7 (quick) / 4..10 (thorough): (a) streams of real items '
@@ -309,9 +309,10 @@ def gen(rng, tier):
             bs = [rng.choice([0, 0, 0, 1, 2, 255, 128, rng.randrange(256)]) if kind < 0.5 else rng.randrange(256) for _ in range(n)]
             b.ops.append([31, ti] + bs)
         for _ in range(12):
-            nbb = rng.choice([0, 0, 1, 2, 3, 5, 8, 12, 20, 26])
-            lgk = rng.choice([4, 6, 10, 16, 26]); n = rng.choice([0, 1, 2, 5, 20, 60])
+            lgk = rng.choice([4, 6, 10, 14]); n = rng.choice([0, 1, 2, 5, 20, 60])
             ps = sorted(set((rng.randrange(1 << lgk) << 6) | rng.randrange(64) for _ in range(n)))
+            q = ((1 << lgk) // max(1, len(ps)))
+            nbb = max(0, q.bit_length() - 1 + rng.choice([-1, 0, 0, 0, 1, 2]))     # around golomb_choose_number_of_base_bits
             if rng.random() < 0.1 and len(ps) > 1: ps[0], ps[1] = ps[1], ps[0]      # unsorted: refused by both
             b.ops.append([32, nbb] + ps)
         for _ in range(30):
@@ -390,7 +391,9 @@ def oracle_big(case, irecs, mrecs):
         if i >= len(irecs): break
         R = irecs[i]['R']; F = irecs[i].get('F')
         if op[0] == 6:
-            if R == [-1]:
+            alive = any(case['ops'][j][0] == 1 and case['ops'][j][1] == op[1] and irecs[j]['R'] == [1] for j in range(i)) and \
+                    all(irecs[j]['R'] == [1] for j in range(i) if case['ops'][j][0] == 8 and case['ops'][j][1] == op[1])
+            if R == [-1] and alive:
                 fails.append(dict(sig='serialize_throws', what='serialize()/deserialize() of a valid sketch throws (lg_k 20, stream of %d distinct items)' %
                                   sum(o[3] for o in case['ops'][:i] if o[0] == 8), op_index=i))
             elif F:
@@ -413,6 +416,30 @@ FAMILIES = [dict(name='cpcbig', harness='drv_cpc.cpp', extract=None, model=None,
 FAMILIES = FAMILIES[1:] + FAMILIES[:1]
 
 MANIFEST = dict(
-    level_text='(work in progress)',
-    level_note='',
+    level_text=('PROVED in Coq (coq/Properties_C05.v, 18 theorems, axiom-free, for EVERY lg_k, seed and sequence of (row,col) pairs, i.e. for arbitrary hash '
+                'functions; partial correctness: whenever the model returns a result, i.e. the code neither throws nor runs into UB): '
+                '(1) u32_table (linear probing, growth/shrink rebuild, delete by re-insertion) refines a finite set for any sequence of inserts/deletes, returns exact '
+                'novelty flags, never stores an item twice, counts correctly; (2) after any update sequence build_bit_matrix(sketch) = the matrix with exactly the offered '
+                'coupons set, in every flavor, across promote_sparse_to_windowed and every move_window; num_coupons = number of distinct pairs = popcount; validate() true; '
+                'window_offset = determine_correct_offset(lg_k, C); every column below first_interesting_column is full (the speed filter drops nothing novel); the window '
+                'exists exactly from 3K/32 coupons on; one update preserves the invariant from ANY state satisfying it; a state rebuilt from a bit matrix (move_window and '
+                'the union\'s get_result_from_bit_matrix row loop) represents that matrix; (3) compression, second stage: compression_data.hpp is TRANSLATED on every run and '
+                '210 finite obligations are re-checked (code lengths, canonical values, completeness, prefix-freeness, decode(encode)=id and validate_decoding_table for the 22 '
+                'byte tables and the length-limited unary table, the 16 column permutations bijective with correct inverses); on top of them the bit-stream writer/reader with '
+                'its 11 / max(0,10-B) bits of padding, low_level_compress/uncompress_bytes, write/read_unary, low_level_compress/uncompress_pairs (x-delta Huffman, y-delta '
+                'Golomb), compress/uncompress_surprising_values and compress/uncompress_sliding_window are modelled and proved to round-trip for ALL inputs, never to over-read, '
+                'and to stay within safe_length_for_compressed_pair_buf / _window_buf; with 64-bit thresholds a SLIDING sketch always gets a phase < 16. '
+                'CORRESPONDENCE ONLY (model = code on generated scripts, and property predicates evaluated on the implementation): the union (cases A-D, reduce_k, '
+                'walk_table_updating_sketch, get_result: result lg_k = min over union and non-empty inputs, matrix = OR of row-folded inputs, order independence) is modelled and '
+                'compared in all input orders but its theorem is not proved; the per-flavor composition compress()/uncompress() (pair sorting, hybrid merge, -8 shift, column '
+                'rotation+permutation) is modelled and its output words are compared with the implementation\'s for every flavor but the end-to-end '
+                'uncompress(compress s) = s theorem is not assembled; serialize->deserialize is additionally checked on the implementation (bytes = stream, re-serialization '
+                'identical, estimates/bounds/kxp/HIP bit-identical, deserialized state identical incl. deserialize-then-continue); merged-form estimate is a function of (lg_k, C).'),
+    level_note=('Trusted: Coq kernel + vm_compute; translator translators/gen_cpctables.py (strict: exact dimensions, every entry parsed); hand-written Gallina model of the '
+                'headers validated by the correspondence runs (coupon count, validate(), flavor, offset, first_interesting_column, window bytes, sorted table, matrix rows of '
+                'build_bit_matrix, compressed table/window words, for lg_k 4..7 quick / 4..10 thorough, all flavor boundaries and all 56 window shifts incl. the refused 57th); '
+                'Murmur model; kxp/HIP floating point not modelled (compared only with themselves across a round trip); count_bits_set_in_matrix (CSA popcount) is modelled by '
+                'plain popcount and only compared. Not claimed: totality for adversarial raw coupon streams (beyond 48K surprising values the table would need lg_size > '
+                'num_valid_bits — unreachable through hashed inputs; the generator stays below); lg_k > 10 is covered by the theorems (all lg_k) and, on the implementation '
+                'only, by the lg_k 20 stream of the cpcbig family. Genuine defect repaired by fixes/05_cpc_pseudo_phase_overflow.patch (old behaviour refuted in coq/Regression_cpc.v).'),
     design_ref='DESIGN.md section 5 C05')
